@@ -1,11 +1,12 @@
 /-
 Model of the name mangling of the two writers:
 
-* `unified_planning/io/pddl_writer.py`: `_get_pddl_name` (l.1080), `PDDLWriter.__init__` keyword
-  selection (l.346), `PDDLWriter._get_mangled_name` (l.923), `get_item_named` (l.961),
-  `get_pddl_name` (l.979);
-* `unified_planning/io/anml_writer.py`: `_is_valid_anml_name` (l.455), `_get_anml_valid_name`
-  (l.464), `_get_anml_name` (l.492), the pre-registration loops and the name-relevant skeleton of
+* `unified_planning/io/pddl_writer.py`: `_get_pddl_name` (l.1129), `PDDLWriter._get_mangled_name`
+  (l.968), `get_item_named` (l.1010), `get_pddl_name` (l.1028); the keyword SELECTION of
+  `PDDLWriter.__init__` (l.382-402) is modelled in `Core/MangleSelect.lean` (`initKeywords`, conditions
+  regenerated from the source); `pddlKeywords` below is its older form with the four choices given as flags;
+* `unified_planning/io/anml_writer.py`: `_is_valid_anml_name` (l.457), `_get_anml_valid_name`
+  (l.466), `_get_anml_name` (l.494), the pre-registration loops and the name-relevant skeleton of
   `ANMLWriter._write_problem` (l.239).
 
 Names are ASCII strings, modelled as `List Char` (`str.lower()` is `Char.toLower`, which is the
@@ -25,12 +26,13 @@ abbrev Name := List Char
 
 structure Tables where
   /-- `GENERAL_PDDL_KEYWORDS`, `PDDL_PLUS_KEYWORDS`, `PDDL3_KEYWORDS`, `TEMPORAL_PDDL_KEYWORDS`,
-      `CONTINGENT_PDDL_KEYWORDS` -/
+      `CONTINGENT_PDDL_KEYWORDS`, `HDDL_KEYWORDS` -/
   pddlGeneral : List Name
   pddlPlus : List Name
   pddl3 : List Name
   pddlTemporal : List Name
   pddlContingent : List Name
+  pddlHddl : List Name
   /-- pddl_writer `INITIAL_LETTER` (class name ↦ letter) and the default of its `.get` -/
   pddlInitial : List (Name × Char)
   pddlDefault : Char
@@ -112,7 +114,8 @@ def freshFuel (taken : List Name) : Nat := taken.length + 1
 
 /-! ### PDDL -/
 
-/-- `PDDLWriter.__init__`: the keyword set of one writer -/
+/-- the keyword set of one writer when the four optional tables are chosen by flags (see `initKeywords` in
+    `Core/MangleSelect.lean` for `PDDLWriter.__init__` deciding them from the problem) -/
 def pddlKeywords (T : Tables) (plus pddl3 temporal contingent : Bool) : List Name :=
   T.pddlGeneral ++ (if plus then T.pddlPlus else []) ++ (if pddl3 then T.pddl3 else [])
     ++ (if temporal then T.pddlTemporal else []) ++ (if contingent then T.pddlContingent else [])
